@@ -78,11 +78,12 @@ def rats(a, den=2000):
     return [gamma.proj_rat(x, den, ulps=64) for x in np.asarray(a, dtype=float).reshape(-1)]
 
 
-def roc_event(ev, s, o, a, x, g):
+def roc_event(ev, s, o, a, x, g, x_call=None):
     from score_analysis import roc
     proj = T3Projector(g, list(o["pos"]) + list(o["neg"]))
     e = ev("roc", h=1, args=a, x=x,
-           out={"thr": [], "cm": [], "fnr": [], "fpr": [], **{v: [] for v in VIEWS}}, t_fnr=[], t_fpr=[])
+           out={"thr": [], "cm": [], "fnr": [], "fpr": [], "inputs_untouched": True, **{v: [] for v in VIEWS}},
+           t_fnr=[], t_fpr=[])
     try:
         kw = {}
         if a["fnr"]:
@@ -93,7 +94,19 @@ def roc_event(ev, s, o, a, x, g):
             kw["thresholds"] = np.array([conc_thr(g, t) for t in a["thr"]])
         # nb_points as a Python int or as a NumPy integer scalar (e.g. the result of np.minimum(n, k))
         kw["nb_points"] = None if a["nb"] == -1 else [a["nb"], np.int64(a["nb"]), np.int32(a["nb"])][e["id"] % 3]
-        c = roc(s, x_axis=x, **kw)
+        # the caller's arrays: sometimes read-only, sometimes a pandas Series; never modified by roc()
+        keep = {k_: np.array(v_, copy=True) for k_, v_ in kw.items() if isinstance(v_, np.ndarray)}
+        if e["id"] % 4 == 0:
+            for v_ in kw.values():
+                if isinstance(v_, np.ndarray):
+                    v_.flags.writeable = False
+        elif e["id"] % 4 == 1 and "thresholds" in kw:
+            import pandas as pd
+            kw["thresholds"] = pd.Series(kw["thresholds"], index=np.arange(len(kw["thresholds"]))[::-1])
+        pos_before, neg_before = np.array(s.pos, copy=True), np.array(s.neg, copy=True)
+        c = roc(s, x_axis=x_call or x, **kw)
+        e["out"]["inputs_untouched"] = bool(all(np.array_equal(np.asarray(kw[k_]), v_) for k_, v_ in keep.items())
+                                            and np.array_equal(s.pos, pos_before) and np.array_equal(s.neg, neg_before))
         th = np.asarray(c.thresholds)               # as returned (extended precision stays extended)
         e["out"]["thr"] = [proj(t) for t in th]
         m = np.asarray(s.cm(th).matrix)
@@ -118,7 +131,7 @@ def roc_event(ev, s, o, a, x, g):
             if isinstance(arr, np.ndarray) and arr.flags.writeable:
                 arr *= 100.0                                   # e.g. converted to percent for a plot
         for key in ("thresholds", "fnr"):
-            if isinstance(kw.get(key), np.ndarray) and kw[key].size:
+            if isinstance(kw.get(key), np.ndarray) and kw[key].size and kw[key].flags.writeable:
                 kw[key] += 1000.0                              # the caller's buffer is reused
         e2["out"]["thr"] = [proj(t) for t in np.asarray(c.thresholds)]
         e2["out"]["fnr"] = rats(c.fnr)
@@ -143,6 +156,14 @@ def events_for_case(o, cid, g, args, ids, axes_per_arg=2):
              "thr": [list(t) for t in a["thr"]], "nb": a["nb"]}
         for r in range(axes_per_arg):
             roc_event(ev, s, o, a, AXES[(cid + j + 3 * r) % 8], g)
+    # an axis name in another letter case: either rejected (ValueError, as today) or treated as that axis
+    xs = AXES[cid % 8]
+    try:
+        roc(s, x_axis=xs.upper(), nb_points=3)
+        a_ = {"fnr": [], "fpr": [], "thr": [], "nb": 3}
+        roc_event(ev, s, o, a_, xs, g, x_call=xs.upper())
+    except ValueError:
+        pass
     # history: another configuration is assigned to the (already queried) object
     o2 = sd.set_config_event(ev, s, o, g, h=1, k=cid)
     if o2 is not None:
